@@ -184,7 +184,6 @@ CLAIMED = {
 
 NOT_APPLICABLE = {
  "C17": "stream integrity across write/enable/flush/fault histories is a property of runtime values and orders; no structural clause that is both necessary and non-brittle beyond what C08/C10/C16/C18/C22 check",
- "C27": "exactly-once completion under every fault point depends on run-time flag correlations (USER_OWNED/DEFER_FREE/NEEDS_FREE, queue membership) that a path-insensitive rule cannot track without false alarms",
  "C28": "URI parse/join round trip is string-grammar equivalence over all inputs (runtime values)",
  "C39": "equality with a reference parser of resolv.conf/hosts syntax over all file contents; no bounded-buffer idiom to anchor a guard rule",
 }
@@ -426,4 +425,15 @@ CLAIMED.update({
                  "Declined — the bulk of C24: grammar conformance under every segmentation, 1xx other than 100 being interim, bytes after a complete response going to the next request.",
          "note": STD_NOTE + ORDER_NOTE,
          "technique": "static analysis: evaluation of the extracted framing code (typed integers + abstract constant strings) over a finite status/header domain against the RFC 9112 decision table (K6)"},
+ "C27": {"level": "other",
+         "text": "The completion protocol of http.c, decided by evaluating the extracted CFGs of the nine functions that complete, fail, cancel, retry, answer or tear down requests "
+                 "on the finite domain of their decision inputs (error code, connection kind/flags, callbacks set or not, queue position, helper results) and comparing the ordered trace "
+                 "of unlink / user callback / release / connection-free operations with the protocol: an outgoing request is unlinked before its callback, completed exactly once "
+                 "(never when cancelled), released exactly once, nothing touches the connection after a user callback; a failing evhttp_make_request has released the request; the "
+                 "retry branch completes nothing; teardown cancels retry timer and deferred callback and releases queued requests; connection_cnt has one incrementer and one guarded "
+                 "decrementer and an over-limit connection is only refused; evhttp_handle_request hands a request to exactly one responder. Found and repaired a genuine leak "
+                 "(evhttp_make_request after a synchronous connect failure). Declined: completion counts over network histories (resets at every byte, timeouts and retries over "
+                 "time, pipelining) — those need executions.",
+         "note": STD_NOTE + ORDER_NOTE,
+         "technique": "static analysis: evaluation of extracted CFGs over finite decision domains with ordered operation traces (K6/K11), path and who-writes rules (K3/K2/K1)"},
 })
